@@ -85,7 +85,10 @@ def _alloc(eng, st, args, kwargs, line, fill):
         contents = z3.K(INT, one)
     else:
         contents = None  # np.empty: arbitrary contents
-    return val(st, new_array(eng, st, dims, kind, dt, contents, fill))
+    out = new_array(eng, st, dims, kind, dt, contents, fill)
+    if fill in ("zeros", "ones"):
+        st.hmeta[out.obj]["finite"] = True  # ghost: no NaN/inf elements (pvc/npelem.py)
+    return val(st, out)
 
 
 @model("numpy.zeros")
@@ -123,6 +126,19 @@ def np_sum(eng, st, args, kwargs, line):
     if isinstance(a, VArr) and "axis" not in kwargs and len(args) == 1:
         return val(st, array_sum(eng, st, a, line))
     raise OutOfSubset(f"line {line}: np.sum form")
+
+
+@model("numpy.mean")
+def np_mean(eng, st, args, kwargs, line):
+    """np.mean of a non-empty 1-D array: its sum divided by its length."""
+    eng.assume_tag("A-NP")
+    a = args[0]
+    if isinstance(a, VArr) and "axis" not in kwargs and len(args) == 1:
+        eng.oblig(st, f"mean@{line}", a.n >= 1, line, label="mean of a non-empty array")
+        st.assume(a.n >= 1)
+        tot = array_sum(eng, st, a, line)
+        return val(st, VReal(eng.to_real(tot) / z3.ToReal(a.n)))
+    raise OutOfSubset(f"line {line}: np.mean form")
 
 
 def array_sum(eng, st, a, line):
@@ -474,6 +490,58 @@ def np_logical_or_reduce(eng, st, args, kwargs, line):
     for x in items[1:]:
         acc = MODELS["numpy.logical_or"](eng, st, [acc, x], {}, line)[0][1].value
     return val(st, acc)
+
+
+@model("numpy.roll")
+def np_roll(eng, st, args, kwargs, line):
+    """np.roll(a, k) of a 1-D array: result[j] == a[(j - k) mod n] (a new array)."""
+    eng.assume_tag("A-NP")
+    a = args[0]
+    k = eng.to_int(args[1] if len(args) > 1 else kwargs["shift"], line)
+    if not isinstance(a, VArr):
+        raise OutOfSubset(f"line {line}: np.roll of {a!r}")
+    meta = st.hmeta[a.obj]
+    j = z3.Int("j!rl")
+    n = a.n
+    src = z3.If(n > 0, (j - k) % z3.If(n > 0, n, 1), 0)
+    el = z3.Select(st.heap[a.obj], eng.arr_index_term(a, src))
+    return val(st, new_array(eng, st, [n], meta["kind"], meta.get("dtype"), z3.Lambda([j], el), "roll"))
+
+
+@model("numpy.conj")
+def np_conj(eng, st, args, kwargs, line):
+    a = args[0]
+    if isinstance(a, VArr) and st.hmeta[a.obj].get("dtype") != "c8":
+        return val(st, a)  # conjugate of real data is the data
+    raise OutOfSubset(f"line {line}: np.conj of {a!r}")
+
+
+@model("numpy.fft.rfft")
+def np_rfft(eng, st, args, kwargs, line):
+    """np.fft.rfft(a, n): n//2 + 1 bins (contents: an uninterpreted array; the numerics are outside the model)."""
+    eng.assume_tag("A-FFT: numpy FFT output lengths (n//2+1 bins / n samples); values uninterpreted")
+    a = args[0]
+    n = eng.to_int(args[1], line) if len(args) > 1 and not isinstance(args[1], VNone) else a.n
+    eng.oblig(st, f"fft@{line}", n >= 1, line, label="transform length >= 1 (ValueError)")
+    st.assume(n >= 1)
+    out = new_array(eng, st, [smt.som(n / 2 + 1)], "real", "c8", None, "rfft")
+    st.hmeta[out.obj]["fftlen"] = n  # ghost: the forward transform length this spectrum belongs to
+    return val(st, out)
+
+
+@model("numpy.fft.irfft")
+def np_irfft(eng, st, args, kwargs, line):
+    """np.fft.irfft(a, n): n samples; n defaults to 2*(len(a)-1)."""
+    eng.assume_tag("A-FFT: numpy FFT output lengths (n//2+1 bins / n samples); values uninterpreted")
+    a = args[0]
+    n = eng.to_int(args[1], line) if len(args) > 1 and not isinstance(args[1], VNone) else smt.som(2 * (a.n - 1))
+    eng.oblig(st, f"fft@{line}", n >= 1, line, label="transform length >= 1 (ValueError)")
+    st.assume(n >= 1)
+    fl = st.hmeta[a.obj].get("fftlen") if isinstance(a, VArr) else None
+    if fl is not None:
+        # an inverse of another length is not the inverse of that forward transform (no error: wrong values)
+        eng.oblig(st, f"fft@{line}", n == fl, line, label="inverse transform length equals the forward transform length")
+    return val(st, new_array(eng, st, [n], "real", "f4", None, "irfft"))
 
 
 @model("numpy.modf")
